@@ -553,17 +553,17 @@ Proof.
   - apply bytes_at_here.
 Qed.
 
-Lemma write_insns_rread dbg dbg' be aa asz (caf : N) (daf : Z) : forall (l : list cfi) bs base pre rest,
+Lemma write_insns_rread dbg be aa asz (caf : N) (daf : Z) : forall (l : list cfi) bs base pre rest,
   forallb cfi_wf l = true -> is_i8 daf = true -> forallb (vendor_ok aa) l = true ->
   write_insns dbg daf l = Ok bs ->
   exists ds is,
     decodes_to be bs ds /\ map (sem caf daf) ds = map MInsn l /\
-    rreads dbg' (dp_of be aa asz) (base + len pre) bs is /\
+    (forall dbg', rreads dbg' (dp_of be aa asz) (base + len pre) bs is) /\
     Forall2 (imatch base (pre ++ bs ++ rest)) ds is.
 Proof.
   induction l as [|i r IH]; intros bs base pre rest Hwf Hdaf Hv H.
   - cbn [write_insns] in H. injection H as <-. exists [], []. split; [apply decodes_to_nil|].
-    split; [reflexivity|]. split; [apply rreads_nil|constructor].
+    split; [reflexivity|]. split; [intros; apply rreads_nil|constructor].
   - cbn [write_insns] in H. cbn [forallb] in Hwf, Hv.
     apply andb_true_iff in Hwf. destruct Hwf as [Hi Hr]. apply andb_true_iff in Hv. destruct Hv as [Hvi Hvr].
     destruct (write_insn dbg daf i) as [a| | |] eqn:Ea; try discriminate. cbn [bind] in H.
@@ -573,11 +573,11 @@ Proof.
     destruct (IH b base (pre ++ a) rest Hr Hdaf Hvr eq_refl) as (ds & is & Hds & Hm & Hrr & Hf).
     exists (d :: ds), (to_insn (base + len pre) (len a) d :: is).
     split; [apply decodes_to_cons; assumption|]. split; [cbn [map]; now rewrite Hs, Hm|]. split.
-    + apply rreads_cons; [exact Hne| |].
+    + intros dbg'. apply rreads_cons; [exact Hne| |].
       * intros rest0. cbn [dp_of CfiRun.d_be CfiRun.d_asize CfiRun.d_aarch64]. rewrite Hrd.
         unfold vendor_ok in Hvi. destruct aa; [reflexivity|].
         destruct i; cbn in Hvi |- *; try reflexivity. discriminate.
-      * rewrite len_app, N.add_assoc in Hrr. exact Hrr.
+      * specialize (Hrr dbg'). rewrite len_app, N.add_assoc in Hrr. exact Hrr.
     + constructor.
       * rewrite <- app_assoc. apply imatch_insn; [reflexivity|exact Hex].
       * replace (pre ++ (a ++ b) ++ rest) with ((pre ++ a) ++ b ++ rest) by (repeat rewrite <- app_assoc; reflexivity).
@@ -614,18 +614,18 @@ Proof.
         reflexivity.
 Qed.
 
-Lemma write_fde_insns_rread dbg dbg' be aa asz (caf : N) (daf : Z) : forall (l : list (N * cfi)) prev bs base pre rest,
+Lemma write_fde_insns_rread dbg be aa asz (caf : N) (daf : Z) : forall (l : list (N * cfi)) prev bs base pre rest,
   forallb fde_insn_wf l = true -> is_u8 caf = true -> is_i8 daf = true -> is_u32 prev = true ->
   forallb (fun p => vendor_ok aa (snd p)) l = true ->
   write_fde_insns dbg be caf daf prev l = Ok bs ->
   exists ds is,
     decodes_to be bs ds /\ locate prev (map (sem caf daf) ds) = l /\
-    rreads dbg' (dp_of be aa asz) (base + len pre) bs is /\
+    (forall dbg', rreads dbg' (dp_of be aa asz) (base + len pre) bs is) /\
     Forall2 (imatch base (pre ++ bs ++ rest)) ds is.
 Proof.
   induction l as [|[off i] r IH]; intros prev bs base pre rest Hwf Hcaf Hdaf Hprev Hv H.
   - cbn [write_fde_insns] in H. injection H as <-. exists [], []. split; [apply decodes_to_nil|].
-    split; [reflexivity|]. split; [apply rreads_nil|constructor].
+    split; [reflexivity|]. split; [intros; apply rreads_nil|constructor].
   - cbn [write_fde_insns] in H. cbn [forallb] in Hwf, Hv.
     apply andb_true_iff in Hwf. destruct Hwf as [Hi Hr]. apply andb_true_iff in Hv. destruct Hv as [Hvi Hvr].
     cbn [snd] in Hvi.
@@ -636,9 +636,9 @@ Proof.
     injection H as <-.
     destruct (insn_read_by_reader_lem dbg be caf daf i b Hi Hdaf Eb) as (d & Hd & Hs & Hex & Hrd).
     destruct (write_insn_decodes dbg be caf daf i b Hi Hdaf Eb) as (Hne & _).
-    assert (Hrdb : forall rest0, CfiRun.parse_insn dbg' be asz aa (base + len (pre ++ a)) (b ++ rest0)
+    assert (Hrdb : forall dbg' rest0, CfiRun.parse_insn dbg' be asz aa (base + len (pre ++ a)) (b ++ rest0)
                                  = Ok (to_insn (base + len (pre ++ a)) (len b) d, rest0)).
-    { intros rest0. rewrite Hrd. unfold vendor_ok in Hvi. destruct aa; [reflexivity|].
+    { intros dbg' rest0. rewrite Hrd. unfold vendor_ok in Hvi. destruct aa; [reflexivity|].
       destruct i; cbn in Hvi |- *; try reflexivity. discriminate. }
     destruct (IH off c base (pre ++ a ++ b) rest Hr Hcaf Hdaf Hoff Hvr Ec) as (ds & is & Hds & Hm & Hrr & Hf).
     assert (Hf' : Forall2 (imatch base (pre ++ (a ++ b ++ c) ++ rest)) ds is).
@@ -648,11 +648,11 @@ Proof.
     { replace (pre ++ (a ++ b ++ c) ++ rest) with ((pre ++ a) ++ b ++ (c ++ rest))
         by (repeat rewrite <- app_assoc; reflexivity).
       apply imatch_insn; [reflexivity|exact Hex]. }
-    assert (Hrbc : rreads dbg' (dp_of be aa asz) (base + len (pre ++ a)) (b ++ c)
+    assert (Hrbc : forall dbg', rreads dbg' (dp_of be aa asz) (base + len (pre ++ a)) (b ++ c)
                           (to_insn (base + len (pre ++ a)) (len b) d :: is)).
-    { apply rreads_cons; [exact Hne|exact Hrdb|].
+    { intros dbg'. apply rreads_cons; [exact Hne|apply Hrdb|].
       replace (base + len (pre ++ a) + len b) with (base + len (pre ++ a ++ b)) by (rewrite !len_app; lia).
-      exact Hrr. }
+      apply Hrr. }
     destruct (write_advance_loc_ok dbg be caf prev off a Hcaf Hprev Hoff Ea)
       as [[-> ->]|(delta & Hlt & Hmul & Hdl & ->)].
     + rewrite app_nil_r in Hrbc, Hmb.
@@ -669,9 +669,9 @@ Proof.
       split.
       { cbn [map sem locate]. rewrite Hs. cbn [locate]. replace (prev + delta * caf) with off by lia. now rewrite Hm. }
       split.
-      { apply rreads_cons; [apply adv_enc_nonempty| |].
+      { intros dbg'. apply rreads_cons; [apply adv_enc_nonempty| |].
         - intros rest0. apply rp_adv_enc. exact Hdl.
-        - exact Hrbc. }
+        - apply Hrbc. }
       constructor; [|constructor; assumption].
       exists 0, 0. split; [reflexivity|]. intros e He. discriminate.
 Qed.
@@ -695,3 +695,113 @@ Qed.
 
 Lemma rreads_all dbg dp off bs is : rreads dbg dp off bs is -> CfiRun.decode dbg dp off bs = map It is.
 Proof. intros H. specialize (H []). rewrite app_nil_r, rdec_nil, app_nil_r in H. exact H. Qed.
+
+(* ------------------------------------------------------------------ *)
+(* C. unwind rows of a written FDE (composition with C06)                *)
+(* ------------------------------------------------------------------ *)
+
+(* the already-parsed CIE + FDE handed to the unwind-table model: factors and address size of the written
+   CIE, the two instruction areas with their section offsets *)
+Definition fde_in_of (be aa : bool) (c : CfiWr.cie) (init range : N)
+           (cie_off : N) (cie_area : list byte) (fde_off : N) (fde_area : list byte) : CfiRun.fde_in :=
+  {| CfiRun.f_caf := c_caf c; CfiRun.f_daf := c_daf c; CfiRun.f_asize := c_asize c;
+     CfiRun.f_be := be; CfiRun.f_aarch64 := aa; CfiRun.f_init := init; CfiRun.f_range := range;
+     CfiRun.f_cie_off := cie_off; CfiRun.f_cie := cie_area;
+     CfiRun.f_fde_off := fde_off; CfiRun.f_fde := fde_area |}.
+
+Lemma cie_area_read dbg be eh aa pos (c : CfiWr.cie) bs :
+  cie_wf c = true -> forallb (vendor_ok aa) (c_insns c) = true ->
+  cie_write dbg be eh pos c = Ok bs ->
+  exists il hdr area ds is n,
+    bs = il ++ hdr ++ area /\ len il = ilen_size (c_fmt64 c) /\
+    decode_all be area = Some (ds ++ repeat DNop n) /\
+    map (sem (c_caf c) (c_daf c)) ds = map MInsn (c_insns c) /\
+    Forall2 (imatch (pos + len il + len hdr) area) ds is /\
+    forall dbg', CfiRun.decode dbg' (dp_of be aa (c_asize c)) (pos + len il + len hdr) area
+                 = map It (is ++ repeat INop n).
+Proof.
+  intros Hwf Hv H.
+  pose proof (cie_write_ok_asz _ _ _ _ _ _ H) as Hasz.
+  destruct (asz_cases_pow2 _ Hasz) as [Hu Hp].
+  destruct (cie_wf_parts c Hwf) as (_ & Hcaf & Hdaf & Hins).
+  destruct (cie_write_layout dbg be eh pos c bs Hu Hp H)
+    as (il & hdr & insns & pad & -> & Hil & Hlen & Hw & Hnop & Hpad & Hmod).
+  destruct (write_insns_rread dbg be aa (c_asize c) (c_caf c) (c_daf c) (c_insns c) insns
+              (pos + len il + len hdr) [] pad Hins Hdaf Hv Hw) as (ds & is & Hds & Hm & Hrr & Hf).
+  cbn [app] in Hf.
+  exists il, hdr, (insns ++ pad), ds, is, (length pad).
+  split; [reflexivity|]. split; [exact Hlen|]. split; [apply Hds; apply all_nop_decodes; exact Hnop|].
+  split; [exact Hm|]. split; [exact Hf|].
+  intros dbg'. specialize (Hrr dbg'). change (len []) with 0 in Hrr. rewrite N.add_0_r in Hrr.
+  apply rreads_all. apply rreads_app; [exact Hrr|]. apply nops_rread. exact Hnop.
+Qed.
+
+Lemma fde_area_read dbg be eh aa pos coff (c : CfiWr.cie) (f : CfiWr.fde) bs :
+  cie_wf c = true -> fde_wf f = true -> forallb (fun p => vendor_ok aa (snd p)) (f_insns f) = true ->
+  fde_write dbg be eh pos coff c f = Ok bs ->
+  exists il hdr area ds is n,
+    bs = il ++ hdr ++ area /\ len il = ilen_size (c_fmt64 c) /\
+    decode_all be area = Some (ds ++ repeat DNop n) /\
+    locate 0 (map (sem (c_caf c) (c_daf c)) ds) = f_insns f /\
+    Forall2 (imatch (pos + len il + len hdr) area) ds is /\
+    forall dbg', CfiRun.decode dbg' (dp_of be aa (c_asize c)) (pos + len il + len hdr) area
+                 = map It (is ++ repeat INop n).
+Proof.
+  intros Hwf Hfw Hv H.
+  pose proof (fde_write_ok_asz _ _ _ _ _ _ _ _ H) as Hasz.
+  destruct (asz_cases_pow2 _ Hasz) as [Hu Hp].
+  destruct (cie_wf_parts c Hwf) as (_ & Hcaf & Hdaf & _).
+  pose proof (fde_wf_parts f Hfw) as Hins.
+  destruct (fde_write_layout dbg be eh pos coff c f bs Hu Hp H)
+    as (il & hdr & insns & pad & -> & Hil & Hlen & Hw & Hnop & Hpad & Hmod).
+  destruct (write_fde_insns_rread dbg be aa (c_asize c) (c_caf c) (c_daf c) (f_insns f) 0 insns
+              (pos + len il + len hdr) [] pad Hins Hcaf Hdaf eq_refl Hv Hw) as (ds & is & Hds & Hm & Hrr & Hf).
+  cbn [app] in Hf.
+  exists il, hdr, (insns ++ pad), ds, is, (length pad).
+  split; [reflexivity|]. split; [exact Hlen|]. split; [apply Hds; apply all_nop_decodes; exact Hnop|].
+  split; [exact Hm|]. split; [exact Hf|].
+  intros dbg'. specialize (Hrr dbg'). change (len []) with 0 in Hrr. rewrite N.add_0_r in Hrr.
+  apply rreads_all. apply rreads_app; [exact Hrr|]. apply nops_rread. exact Hnop.
+Qed.
+
+Lemma valid_asize_of a : asz_ok a -> CfiRun.valid_asize a = true.
+Proof. intros [->|[->|[->| ->]]]; reflexivity. Qed.
+
+(* The unwind rows gimli's reader model produces for a written FDE are those of the DWARF call-frame machine
+   (CfaSpec.run_spec, no storage limits) run on the reader's form of the two written programs, which are the
+   supplied CIE instructions and the supplied FDE instructions at their code offsets. *)
+Lemma rows_read_by_reader_lem dbg be eh aa cpos fpos coff (c : CfiWr.cie) (f : CfiWr.fde) cb fb :
+  cie_wf c = true -> fde_wf f = true ->
+  forallb (vendor_ok aa) (c_insns c) = true -> forallb (fun p => vendor_ok aa (snd p)) (f_insns f) = true ->
+  cie_write dbg be eh cpos c = Ok cb -> fde_write dbg be eh fpos coff c f = Ok fb ->
+  exists cil chdr carea fil fhdr farea dsc dsf ic ifd n1 n2,
+    cb = cil ++ chdr ++ carea /\ fb = fil ++ fhdr ++ farea /\
+    map (sem (c_caf c) (c_daf c)) dsc = map MInsn (c_insns c) /\
+    locate 0 (map (sem (c_caf c) (c_daf c)) dsf) = f_insns f /\
+    Forall2 (imatch (cpos + len cil + len chdr) carea) dsc ic /\
+    Forall2 (imatch (fpos + len fil + len fhdr) farea) dsf ifd /\
+    forall dbg' caps cx init range,
+      let fi := fde_in_of be aa c init range (cpos + len cil + len chdr) carea (fpos + len fil + len fhdr) farea in
+      let spec := run_spec (CfiRunProofs.sparams_of fi) init (spec_end (c_asize c) init range)
+                           (map It (ic ++ repeat INop n1)) (map It (ifd ++ repeat INop n2)) in
+      CfiRunProofs.spec_unl dbg' fi = spec /\
+      (CfiRun.cap_full (max_stack caps) 0 = false -> CfiRunProofs.within_limits dbg' caps fi = true ->
+       Forall2 CfiRunProofs.row_equiv (fst (fst (CfiRun.fde_rows dbg' caps fi cx))) (fst spec) /\
+       snd (fst (CfiRun.fde_rows dbg' caps fi cx)) = snd spec).
+Proof.
+  intros Hwf Hfw Hvc Hvf Hc Hf.
+  pose proof (cie_write_ok_asz _ _ _ _ _ _ Hc) as Hasz.
+  destruct (cie_area_read dbg be eh aa cpos c cb Hwf Hvc Hc) as (cil & chdr & carea & dsc & ic & n1 & E1 & _ & _ & M1 & F1 & D1).
+  destruct (fde_area_read dbg be eh aa fpos coff c f fb Hwf Hfw Hvf Hf) as (fil & fhdr & farea & dsf & ifd & n2 & E2 & _ & _ & M2 & F2 & D2).
+  exists cil, chdr, carea, fil, fhdr, farea, dsc, dsf, ic, ifd, n1, n2.
+  split; [exact E1|]. split; [exact E2|]. split; [exact M1|]. split; [exact M2|]. split; [exact F1|]. split; [exact F2|].
+  intros dbg' caps cx init range fi spec.
+  assert (Hs : CfiRunProofs.spec_unl dbg' fi = spec).
+  { unfold CfiRunProofs.spec_unl, CfiRunProofs.cie_items, CfiRunProofs.fde_items, spec, fi.
+    cbn [fde_in_of CfiRun.f_dparams CfiRun.f_be CfiRun.f_asize CfiRun.f_aarch64 CfiRun.f_cie_off CfiRun.f_cie
+         CfiRun.f_fde_off CfiRun.f_fde CfiRun.f_init CfiRun.f_range].
+    fold (dp_of be aa (c_asize c)). rewrite D1, D2. reflexivity. }
+  split; [exact Hs|]. intros Hcap Hlim.
+  rewrite <- Hs. apply CfiRunProofs.no_silent_limit_thm; [|exact Hcap|exact Hlim].
+  apply valid_asize_of. exact Hasz.
+Qed.
